@@ -106,7 +106,7 @@ func extremeSeqs(seed uint64, n int) []gen.Seq {
 		mk("onebit", 0, 0, ""), mk("onebit", 0, -1, ""), mk("onebit", 0, n/2, ""),
 		mk("sparse", 3, 0, ""), mk("periodic", 3, 0, ""), mk("periodic", 7, 0, ""),
 		mk("uniform", 0, 0, ""), mk("balanced", 0, 0, ""), mk("bias", 10, 0, ""), mk("bias", 990, 0, ""), mk("bias", 300, 0, ""),
-		mk("markov", 990, 0, ""), mk("markov", 10, 0, ""), mk("lfsr", 17, 0, ""), mk("singlerun", n/2, n/4, ""),
+		mk("markov", 990, 0, ""), mk("markov", 10, 0, ""), mk("lfsr", 17, 0, ""), mk("singlerun", n/2, n/4, ""), mk("longruns", 3, 0, ""), mk("longruns", 1, 0, ""),
 	}
 	return out
 }
@@ -450,7 +450,7 @@ func runC17(c *ev.Ctx) {
 		lens = append(lens, 1000000)
 		nrot = 100
 	}
-	fams := []string{"slight", "uniform", "markov", "periodic", "biased", "balanced", "lfsr"}
+	fams := []string{"slight", "uniform", "markov", "periodic", "biased", "balanced", "lfsr", "longruns"}
 	type work struct {
 		sq    gen.Seq
 		cases []symCase
